@@ -106,6 +106,67 @@ def run(rep):
                             'problem': 'substitution lemma fails', 'carrier': n, 'lhs': lhs, 'rhs': rhs,
                             'sigma': {str(a): b for a, b in choice.items()}, 'evars': re_, 'svars': rs_})
                 break
+    # oracle 3: the distribution law of instantiation on the REAL Rust results — `instantiate` distributes over every
+    # constructor, and over a pending substitution it is "instantiate both parts, then substitute":
+    #   inst θ (l → r) = inst θ l → inst θ r     inst θ (p[q/x]) = apply_esubst(inst θ p, x, inst θ q)
+    # evaluated by composing calls of the real functions (the model is not consulted)
+    def some_pat(a):
+        return sx.pat_of_sx(sx.parse(a)[0][1]) if a.startswith('(some ') else None
+    dist_checked = 0
+    # (on patterns the machine can hold: outside them — a substitution node with a non-meta head, which no instruction
+    # builds — the "unchanged" shortcut of instantiate_internal is visible, C11.instantiate_unchanged_visible_outside_shape)
+    inst_items = [(m, r) for m, r in zip(meta[n_subst:], ra[n_subst:])
+                  if m[3][0] in ('imp', 'app', 'ex', 'mu', 'esub', 'ssub') and pm.subst_wf(m[3]) and all(pm.subst_wf(q) for q in m[2])]
+    # the sub-terms where the model and the code differ come first
+    differing = {d['request'] for d in dis}
+    inst_items.sort(key=lambda t: 0 if ('inst (%s) (%s) %s' % (' '.join(map(str, t[0][1])), ' '.join(map(sx.pat_to_s, t[0][2])), sx.pat_to_s(t[0][3]))) in differing else 1)
+    inst_items = inst_items[:600 if quick else 8000]
+    l2 = []
+    for (_, ids, plugs, p), r in inst_items:
+        kids = [p[1], p[2]] if p[0] in ('imp', 'app') else [p[2]] if p[0] in ('ex', 'mu') else [p[1], p[3]]
+        for c in kids:
+            l2.append('inst (%s) (%s) %s' % (' '.join(map(str, ids)), ' '.join(map(sx.pat_to_s, plugs)), sx.pat_to_s(c)))
+    r2 = core.rust_h(l2) if l2 else []
+    it = iter(r2)
+    l3, m3 = [], []
+    for (_, ids, plugs, p), r in inst_items:
+        k = p[0]
+        kids = [next(it) for _ in range(1 if k in ('ex', 'mu') else 2)]
+        ks = [some_pat(a) for a in kids]
+        got = some_pat(r)
+        if any(c is None for c in ks):
+            # a part is refused: the whole must be refused too
+            if got is not None:
+                wit.append({'op': 'inst', 'ids': ids, 'plugs': [sx.pat_to_s(q) for q in plugs], 'pattern': sx.pat_to_s(p), 'rust': r,
+                            'var': 0, 'plug': '', 'problem': 'instantiation of the whole succeeds although instantiating a part is refused'})
+            continue
+        if got is None:
+            if k not in ('esub', 'ssub'):
+                dist_checked += 1
+                wit.append({'op': 'inst', 'ids': ids, 'plugs': [sx.pat_to_s(q) for q in plugs], 'pattern': sx.pat_to_s(p), 'rust': r,
+                            'var': 0, 'plug': '', 'problem': 'instantiation of the whole is refused although every part instantiates'})
+            else:
+                l3.append(f"{'esubst' if k == 'esub' else 'ssubst'} {p[2]} {sx.pat_to_s(ks[1])} {sx.pat_to_s(ks[0])}"); m3.append((ids, plugs, p, r, None))
+            continue
+        if k in ('imp', 'app'):
+            exp = (k, ks[0], ks[1])
+        elif k in ('ex', 'mu'):
+            exp = (k, p[1], ks[0])
+        else:
+            l3.append(f"{'esubst' if k == 'esub' else 'ssubst'} {p[2]} {sx.pat_to_s(ks[1])} {sx.pat_to_s(ks[0])}"); m3.append((ids, plugs, p, r, got))
+            continue
+        dist_checked += 1
+        if got != exp:
+            wit.append({'op': 'inst', 'ids': ids, 'plugs': [sx.pat_to_s(q) for q in plugs], 'pattern': sx.pat_to_s(p), 'rust': r,
+                        'var': 0, 'plug': '', 'expected': sx.pat_to_s(exp), 'problem': 'instantiation does not distribute over ' + k})
+    r3 = core.rust_h(l3) if l3 else []
+    for (ids, plugs, p, r, got), a, req in zip(m3, r3, l3):
+        dist_checked += 1
+        exp = some_pat(a)
+        if exp != got:
+            wit.append({'op': 'inst', 'ids': ids, 'plugs': [sx.pat_to_s(q) for q in plugs], 'pattern': sx.pat_to_s(p), 'rust': r,
+                        'var': 0, 'plug': '', 'substitute_after_instantiating_the_parts': a, 'second_request': req,
+                        'problem': 'instantiating a pending substitution differs from instantiating its parts and substituting'})
     # ---- Python: ninst / nesubst / nssubst vs the model, and the laws on the real code
     plines, pmeta = [], []
     for _ in range(N):
@@ -139,11 +200,11 @@ def run(rep):
                 'patterns with nested and partial notation; law requests (transparency of instantiate, composition) on '
                 'shape-clean inputs run on the real Python code' % (3 if quick else 4),
         'programs': total, 'disagreements_checked': len(dis) + len(pdis) + len(law_bad),
-        'oracle_textbook_checked': tb_checked, 'oracle_semantic_checked': sem_checked,
+        'oracle_textbook_checked': tb_checked, 'oracle_semantic_checked': sem_checked, 'oracle_distribution_checked': dist_checked,
         'samples': [lines[0], lines[n_subst - 1], lines[-1], plines[0], law_lines[0], law_lines[1]],
     })
     for w in wit[:5]:
-        rep.violation('the checker\'s substitution disagrees with the textbook definition / the substitution lemma: '
+        rep.violation('the checker\'s substitution / instantiation disagrees with the textbook definition, the substitution lemma or the distribution law: '
                       + w.get('problem', 'wrong result'), w, True, key='rust-subst:' + w['pattern'] + w['plug'] + str(w['var']))
     for b in law_bad[:5]:
         rep.violation('an instantiation law fails on the real Python code: ' + b['request'][:80], b, True,
